@@ -18,4 +18,9 @@ theorem C02_word_layout :
     cJSONTAGOFFSET = 56 ∧ cJSONVALUEMASK = 2^56 - 1 ∧ cJSONTAGMASK = 255 * 2^56 ∧ cSTRINGBUFBIT = 2^55 ∧ cSTRINGBUFMASK = 2^55 - 1 :=
   word_layout
 
+/-- the string kernels' UTF-8 length classes (shared obligation with C04: a decoded string is exposed wrongly if
+    these move) -/
+theorem C02_kernel_immediates :
+    Generated.aParseStringCmpCopy = [65535, 1114111, 117, 6, 21, 6, 55296, 12, 92, 117, 65535, 127, 2047] := by decide
+
 end SJ.Properties.C02
